@@ -152,6 +152,7 @@ func (r *Run) configure() {
 		w[opPullAck] *= 2
 		w[opModAck] *= 2
 	case "retry":
+		w[opSnapCombo] = 0
 		w[opChase] = 5
 		w[opPublish] /= 2
 		w[opAdvance] *= 2
@@ -196,7 +197,7 @@ func (r *Run) configure() {
 		w[opJob] = 14
 		r.bigPull = true
 		r.noSeek = true
-		w[opSeekTime], w[opSeekSnap], w[opSnapshot], w[opDeleteSnap] = 0, 0, 0, 0
+		w[opSeekTime], w[opSeekSnap], w[opSnapshot], w[opDeleteSnap], w[opSnapCombo] = 0, 0, 0, 0, 0
 		r.faultsOn = false
 		w[opExpirySweep] = 0 // sweeps have client-visible effects by design; not spliced
 		w[opDLSweep] = 0
@@ -1628,7 +1629,10 @@ func (r *Run) nudge(window time.Duration) {
 	}
 	for i := 0; i < 8; i++ {
 		now := time.Now()
-		rows, err := conn.Query("SELECT attempt_at, expires_at FROM deliveries WHERE completed_at IS NULL")
+		// only rows that can still be delivered: rows of deleted subscriptions and expired rows
+		// are exactly what the prune jobs remove, and the paired runs (with / without jobs)
+		// must be nudged identically
+		rows, err := conn.Query("SELECT d.attempt_at, d.expires_at FROM deliveries d JOIN subscriptions s ON s.id = d.subscription_id WHERE d.completed_at IS NULL AND s.deleted_at IS NULL")
 		if err != nil {
 			return
 		}
@@ -1637,6 +1641,9 @@ func (r *Run) nudge(window time.Duration) {
 			var a, b any
 			if rows.Scan(&a, &b) != nil {
 				continue
+			}
+			if asTime(b).Before(now.Add(-time.Millisecond)) {
+				continue // expired already
 			}
 			for _, t := range []time.Time{asTime(a), asTime(b)} {
 				if t.After(now.Add(-time.Millisecond)) && t.Before(now.Add(window)) && t.After(latest) {
@@ -1693,6 +1700,8 @@ func runPaired(t *testing.T, tape *Tape, w *World, variant string, steps int, ou
 	for i := 0; i < len(ca) && i < len(cb); i++ {
 		if ca[i] != cb[i] {
 			out.v = viol("C15", "paired_trace", "client-visible traces diverge at event %d: with prune jobs %q, without %q", i, ca[i], cb[i])
+			out.trace = append(out.trace, "==== the same history without the prune jobs")
+			out.trace = append(out.trace, b.Trace...)
 			return
 		}
 		if ca[i] == "---- end of client-visible history" {
